@@ -14,6 +14,7 @@ import (
 	"sync"
 
 	"github.com/openconfig/ygot/ygot"
+	"pgregory.net/rapid"
 	"verifharness/model"
 )
 
@@ -390,4 +391,17 @@ func (tl *tally) require(t interface {
 			t.Errorf("INCONCLUSIVE: %s generator health: class %q occurred in %d of %d cases (need >= %.1f%%)", prop, c, tl.c[c], tl.n, need[c]*100)
 		}
 	}
+}
+
+// pickIndex draws an index in [0, n) that is spread evenly: rapid's integer generators favour small
+// values, so the raw draw is passed through a fixed mixing function (still a pure function of the
+// rapid bit stream, so failures replay and shrink).
+func pickIndex(rt *rapid.T, n int, label string) int {
+	x := rapid.Uint64().Draw(rt, label)
+	x ^= x >> 33
+	x *= 0xff51afd7ed558ccd
+	x ^= x >> 33
+	x *= 0xc4ceb9fe1a85ec53
+	x ^= x >> 33
+	return int(x % uint64(n))
 }
